@@ -328,6 +328,15 @@ func c07Do(st *c07State, k connCfg, op string) {
 		} else {
 			x.c.Read(bg)
 		}
+	case "closeRead":
+		// the application stops reading: the library's own goroutine takes over, meets the
+		// peer's next data message and closes the connection (policy violation)
+		if x.closed || x.r != nil {
+			return
+		}
+		x.c.CloseRead(bg)
+		vs.Quiesce()
+		x.closed = true
 	case "wsjsonBad":
 		// a document that is not valid JSON for the target: an error, and the connection is closed with 1007
 		if x.r != nil {
@@ -809,7 +818,7 @@ func c07Scenarios(tier string) []scenario {
 				if len(cur) == 3 || (tier == "thorough" && len(cur) == 4) {
 					return
 				}
-				for _, op := range []string{"A.readExact", "A.readAll", "B.readAll", "B.readExact", "A.closeNow", "A.readPartial", "A.wsjsonBad", "B.wsjson"} {
+				for _, op := range []string{"A.readExact", "A.readAll", "B.readAll", "B.readExact", "A.closeNow", "A.readPartial", "A.wsjsonBad", "B.wsjson", "A.closeRead"} {
 					genM(append(cur, op))
 				}
 			}
